@@ -274,25 +274,44 @@ Proof.
     change (pre ++ c :: r ++ rest) with (pre ++ (c :: r) ++ rest); rewrite slice_mid; reflexivity.
 Qed.
 
-(* ---- labels (after ":"): a letter, then anything without braces, up to the closing brace ------------------------------------- *)
-Definition nobrace (c : N) : bool := negb (c =? 123)%N && negb (c =? 125)%N.
-Definition valid_label (s : str) : bool := match s with c :: r => is_letter c && forallb nobrace r | [] => false end.
+(* ---- labels (after ":"): a letter, then anything whose braces are balanced, up to the closing brace of the element ------------- *)
+Fixpoint brace_depth (d : nat) (l : str) : option nat :=
+  match l with
+  | [] => Some d
+  | c :: r => if (c =? 123)%N then brace_depth (S d) r
+              else if (c =? 125)%N then match d with O => None | S d' => brace_depth d' r end
+              else brace_depth d r
+  end.
+Definition valid_label (s : str) : bool :=
+  match s with c :: r => is_letter c && (match brace_depth 0 r with Some O => true | _ => false end) | [] => false end.
+
+Lemma label_loop_run : forall l1 fuel l2 s d d',
+  chars s = l1 ++ l2 -> brace_depth d l1 = Some d' -> length l1 <= fuel ->
+  label_loop fuel d s = label_loop (fuel - length l1) d' (mkTS l2 (toks s) (value s ++ l1) (index s + length l1) (start s) (orig s)).
+Proof.
+  induction l1 as [|c l1 IH]; intros fuel l2 s d d' Hc Hb Hf.
+  - cbn [app length brace_depth] in *. inversion Hb; subst d'. rewrite Nat.sub_0_r, app_nil_r, Nat.add_0_r.
+    destruct s; cbn in *; subst; reflexivity.
+  - destruct fuel as [|f]; [cbn [length] in Hf; lia|]. cbn [app] in Hc. cbn [label_loop]. rewrite Hc.
+    cbn [brace_depth] in Hb. cbn [length]. cbn [Nat.sub].
+    assert (Hstep : forall dd, brace_depth dd l1 = Some d' ->
+              label_loop f dd (take1 s) = label_loop (f - length l1) d' (mkTS l2 (toks s) (value s ++ c :: l1) (index s + S (length l1)) (start s) (orig s))).
+    { intros dd Hdd. rewrite (IH f l2 (take1 s) dd d'); [|unfold take1; rewrite Hc; reflexivity|exact Hdd|cbn [length] in Hf; lia].
+      unfold take1. rewrite Hc. cbn [chars toks value index start orig]. rewrite <- app_assoc. cbn [app]. f_equal. f_equal. lia. }
+    destruct (c =? 123)%N.
+    + apply Hstep. exact Hb.
+    + destruct (c =? 125)%N.
+      * destruct d as [|d0]; [discriminate|]. apply Hstep. exact Hb.
+      * apply Hstep. exact Hb.
+Qed.
 
 Lemma label_loop_spec : forall fuel l1 l2 s,
-  chars s = l1 ++ 125%N :: l2 -> forallb nobrace l1 = true -> length l1 < fuel ->
+  chars s = l1 ++ 125%N :: l2 -> brace_depth 0 l1 = Some 0 -> length l1 < fuel ->
   label_loop fuel 0 s = mkTS (125%N :: l2) (toks s) (value s ++ l1) (index s + length l1) (start s) (orig s).
 Proof.
-  induction fuel as [|f IH]; intros l1 l2 s Hc Hp Hf; [lia|].
-  cbn [label_loop]. destruct l1 as [|c l1].
-  - cbn [app] in Hc. rewrite Hc. change ((125 =? 123)%N) with false. change ((125 =? 125)%N) with true. cbv iota.
-    rewrite app_nil_r, Nat.add_0_r. destruct s; simpl in *; subst; reflexivity.
-  - cbn [app forallb] in Hc, Hp. apply andb_prop in Hp as [Hpc Hp]. rewrite Hc.
-    unfold nobrace in Hpc. apply andb_prop in Hpc as [H1 H2]. apply negb_true_iff in H1. apply negb_true_iff in H2. rewrite H1, H2.
-    rewrite (IH l1 l2 (take1 s)).
-    + unfold take1. rewrite Hc. cbn [chars toks value index start orig length]. rewrite <- app_assoc. cbn [app]. f_equal. lia.
-    + unfold take1. rewrite Hc. reflexivity.
-    + exact Hp.
-    + cbn [length] in Hf. lia.
+  intros fuel l1 l2 s Hc Hb Hf. rewrite (label_loop_run l1 fuel (125%N :: l2) s 0 0 Hc Hb) by lia.
+  destruct (fuel - length l1) as [|k] eqn:Ek; [lia|]. cbn [label_loop chars].
+  change ((125 =? 123)%N) with false. change ((125 =? 125)%N) with true. reflexivity.
 Qed.
 
 Definition label_tok (l : str) : tok := mkTok KLabel l (Fin 0%Q).
@@ -302,7 +321,8 @@ Lemma main_loop_label (pre l rest : str) (ts : list tok) :
   main_loop (mkTS (l ++ 125%N :: rest) ts [] (length pre) (length pre) (pre ++ l ++ 125%N :: rest))
   = Ok (mkTS (125%N :: rest) (label_tok l :: ts) [] (length pre + length l) (length pre + length l) (pre ++ l ++ 125%N :: rest)).
 Proof.
-  intros Hv Hprev. destruct l as [|c r]; [discriminate|]. simpl in Hv. apply andb_prop in Hv as [Hu Ht].
+  intros Hv Hprev. destruct l as [|c r]; [discriminate|]. cbn [valid_label] in Hv. apply andb_prop in Hv as [Hu Ht].
+  assert (Hb : brace_depth 0 r = Some 0) by (destruct (brace_depth 0 r) as [[|k]|]; [reflexivity|discriminate|discriminate]).
   unfold main_loop. cbn [chars app]. rewrite (letter_not_special c Hu), Hu.
   unfold identifier_or_label. cbv zeta. unfold take1; cbn [chars toks value index start orig app].
   unfold prev_kind. cbn [toks]. destruct ts as [|t ts']; [contradiction|]. cbn in Hprev. rewrite Hprev.
